@@ -70,7 +70,7 @@ def build(race=False):
 STATS_RE = re.compile(r"(\d+) states generated, (\d+) distinct states found, (\d+) states left")
 
 
-def tlc(run, module, cfg_text, name, workers=None, timeout=900, extra=(), simulate=None):
+def tlc(run, module, cfg_text, name, workers=None, timeout=900, extra=(), simulate=None, depth=None):
     """Run TLC on module with the given cfg text. Returns (stdout, stats dict)."""
     cfg = run.path(name + ".cfg")
     with open(cfg, "w") as f:
@@ -80,7 +80,7 @@ def tlc(run, module, cfg_text, name, workers=None, timeout=900, extra=(), simula
            "-cp", "/opt/veriftools/tla/tla2tools.jar:/opt/veriftools/tla/CommunityModules-deps.jar",
            "tlc2.TLC", "-workers", str(workers or min(8, NCPU)), "-metadir", meta, "-config", cfg]
     if simulate:
-        cmd += ["-simulate", simulate]
+        cmd += ["-simulate", simulate, "-depth", str(depth or 100), "-seed", str(run.seed)]
     cmd += list(extra) + [module + ".tla"]
     t0 = time.time()
     outp = run.path(name + ".out")
@@ -143,9 +143,9 @@ def model_check(run, module, cfg_text, name, workers=None, timeout=900, allow_vi
     return (not violated), out, st
 
 
-def generate(run, module, cfg_text, name, fam=None, workers=None, timeout=900, cap=None, simulate=None):
+def generate(run, module, cfg_text, name, fam=None, workers=None, timeout=900, cap=None, simulate=None, depth=None):
     """TLC as scenario generator: returns the list of scenario dicts printed with tag SCN."""
-    out, st = tlc(run, module, cfg_text, name, workers=workers, timeout=timeout, simulate=simulate)
+    out, st = tlc(run, module, cfg_text, name, workers=workers, timeout=timeout, simulate=simulate, depth=depth)
     err = tlc_errors(out)
     if err and "is violated" not in out:
         raise Infra("TLC generator %s failed:\n%s" % (name, err))
